@@ -339,6 +339,10 @@ class World:
                 rows.append([n, self.tdef(ct, n, ci)])
                 if n < 60 and (("t%d" % n) not in cts or ("t%d" % n) not in bts):   # (wildcard names live in cts only)
                     rows.append([n + 2000, self.tdef(ct, n, ci)])     # defined in only one of the two class dictionaries
+            # the "<name>_items" event traits the class defines (container traits); one created on demand must go to
+            # the instance that needed it, never here
+            for k in sorted((k for k in cts if self.name_code(k) >= 1000), key=self.name_code):
+                rows.append([self.name_code(k), self.tdef(cts[k], None, ci)])
             wild = self.case.get("wild")
             if wild:
                 # the definition a wildcard name with static handlers will get (the class defines _tN_changed), and
